@@ -13,13 +13,21 @@
 (*   a conclusion that is not the goal asked (or its documented form), a foreign exception.                    *)
 EXTENDS C05_HolArith, TraceLib
 
-Verdicts(e) == [i \in 1..Len(e.acc) |-> SeqTruth(e.acc[i].h, e.acc[i].c)]
+\* the truth of the goal is computed once per event; conclusions that are the goal, its negation, the comparison under the goal's
+\* negation, or `goal <--> true/false` are read off it (negations only for closed statements: on a grid "not refuted" has no negation)
+NegT(t) == CASE t = "T" -> "F" [] t = "F" -> "T" [] OTHER -> "NA"
+Verdict(e, tg, r) ==
+  IF Len(r.h) > 0 THEN SeqTruth(r.h, r.c)
+  ELSE IF r.c = e.goal THEN tg
+  ELSE IF ~Closed(e.goal) THEN Truth(r.c)
+  ELSE IF r.c = Not(e.goal) \/ e.goal = Not(r.c) \/ r.c = Rel("equals", "bool", e.goal, FalseC) THEN NegT(tg)
+  ELSE IF r.c = Rel("equals", "bool", e.goal, TrueC) THEN tg
+  ELSE Truth(r.c)
+Verdicts(e) == LET tg == Truth(e.goal) IN [i \in 1..Len(e.acc) |-> Verdict(e, tg, e.acc[i])]
 ClausesOf(e, vs) == { "True_" \o e.acc[i].m : i \in { j \in 1..Len(e.acc) : vs[j] = "F" } }
 NontrivialOf(e, vs) == \E i \in 1..Len(e.acc) : vs[i] \in {"T", "F"}
-DivergesOf(e, vs) == \/ \E i \in 1..Len(e.acc) : \/ vs[i] = "T" /\ ~InDomain(e.acc[i].m, e.goal)
-                                                  \/ ~Asked(e.acc[i].m, e.goal, e.acc[i].c)
-                                                  \/ Len(e.acc[i].h) > 0
-                     \/ \E i \in 1..Len(e.rej) : e.rej[i][3] = "raised"
+OffLabel(e, vs, i) == (vs[i] = "T" /\ ~InDomain(e.acc[i].m, e.goal)) \/ ~Asked(e.acc[i].m, e.goal, e.acc[i].c) \/ Len(e.acc[i].h) > 0
+DivergesOf(e, vs) == (\E i \in 1..Len(e.acc) : OffLabel(e, vs, i)) \/ (\E i \in 1..Len(e.rej) : e.rej[i][3] = "raised")
 TNext == LET e == Trace[l]  vs == Verdicts(e) IN TStep(e.tid, ClausesOf(e, vs), NontrivialOf(e, vs), DivergesOf(e, vs))
 TSpec == TInit /\ [][TNext]_l
 =============================================================================
